@@ -520,6 +520,10 @@ type Pager struct {
 	// journal back and finalise again, as SQLite does; CommitErr2 is that second result.
 	RollbackOnCommitError bool
 	CommitErr2            error
+	// LastRecs / LastGrew: the journal records and whether the file grew in the last RunRollbackTx (for a caller
+	// that lets LiteFS roll the journal back)
+	LastRecs []uint32
+	LastGrew bool
 	// BeforeCommit runs immediately before the commit step (journal finalisation / release of the
 	// WAL write lock after a commit frame).
 	BeforeCommit func()
@@ -552,6 +556,7 @@ const (
 	RollbackBeforeWrite                 // journal created, records written, then rolled back before any db write
 	RollbackAfterWrite                  // db pages written (cache spill), then rolled back by replaying the journal
 	LockOnly                            // RESERVED taken and released without writing
+	DieAfterWrite                       // the client dies after its page writes: the journal stays hot, its locks are gone
 )
 
 // busy-timeout like SQLite's: other lock holders (snapshots being streamed, internal writers) come and go
@@ -752,6 +757,13 @@ func (p *Pager) RunRollbackTx(prev *Image, tx Tx, jm JournalMode, outcome Rollba
 		p.Rec.Write(pg, writes[pg])
 	}
 	_ = db.SyncDatabase(ctx)
+	p.LastRecs = recs
+	p.LastGrew = (tx.NewSize > uint32(len(prev.Pages)) || maxWritten > uint32(len(prev.Pages))) && len(prev.Pages) > 0
+	if outcome == DieAfterWrite {
+		p.logf("client dies after its page writes")
+		unlockAll()
+		return nil
+	}
 	if outcome == RollbackAfterWrite {
 		// play the journal back: restore pre-images, restore size, then finalise
 		for _, pg := range recs {
@@ -997,6 +1009,9 @@ type WALMark struct {
 	frames int
 	c1, c2 uint32
 }
+
+// DropPending forgets the frames written since the last commit (the transaction rolls back).
+func (p *Pager) DropPending() { p.pending, p.pendingCommit = nil, 0 }
 
 func (p *Pager) Mark() WALMark           { return WALMark{p.walFrames, p.walCk1, p.walCk2} }
 func (p *Pager) ResetTo(m WALMark)       { p.walFrames, p.walCk1, p.walCk2 = m.frames, m.c1, m.c2 }
